@@ -81,6 +81,13 @@ class Transition:
             for v in args.values():
                 if isinstance(v, OpaqueBytes) and is_sym(v.len):
                     small.append(v.len <= 40)
+            # ... and durations that do not sit on a knife edge: retention / expiry of at least a minute, delivery delay zero or long
+            for r in pre.get('Subscription', []):
+                for cname in ('message_ttl', 'ttl'):
+                    if is_sym(r.v.get(cname)):
+                        small.append(r.v[cname] >= 60 * 10**9)
+                if is_sym(r.v.get('delivery_delay')):
+                    small.append(z3.Or(r.v['delivery_delay'] == 0, r.v['delivery_delay'] >= 60 * 10**9))
             # pin the uninterpreted filter predicates to the real semantics on a two-filter vocabulary (true facts, so sound to assume)
             flts = [r.v['filter'] for r in pre.get('Subscription', [])] + [args.get('filter')]
             amaps = [r.v['attributes'] for r in pre.get('Message', [])] + [v for k, v in args.items() if isinstance(v, SymMap) and k in ('attrs', 'attributes')]
